@@ -40,6 +40,7 @@ Theorem model_is_of_current_source :
                            "OutgoingTxBatches"]%string /\
   Gen.C13.add_evidence_one_entry_per_validator = true /\
   Gen.C13.evidence_lookup_is_live_registry = true /\
+  Gen.C13.evidence_list_written_only_by_add_evidence = true /\
   Gen.C13.dummy_gas_estimate = 300000 /\ Gen.C13.estimate_zero_means_dummy = true /\
   Gen.C13.checkpoint_fields =
     ["i.TokenContract.GetAddress()"; "args"; "big.NewInt(int64(i.BatchNonce))"; "turnstoneBytes32";
@@ -47,7 +48,7 @@ Theorem model_is_of_current_source :
   Gen.C13.prune_floor_factor = 10 /\ Gen.C13.prune_floor_strict = true /\
   Gen.C13.undelivered_is_no_public_and_no_error = true /\
   Gen.C13.prune_jails_snapshot_vals_without_evidence = true.
-Proof. exact (conj eq_refl (conj eq_refl (conj eq_refl (conj eq_refl (conj eq_refl (conj eq_refl (conj eq_refl (conj eq_refl (conj eq_refl (conj eq_refl eq_refl)))))))))). Qed.
+Proof. exact (conj eq_refl (conj eq_refl (conj eq_refl (conj eq_refl (conj eq_refl (conj eq_refl (conj eq_refl (conj eq_refl (conj eq_refl (conj eq_refl (conj eq_refl eq_refl))))))))))). Qed.
 Print Assumptions model_is_of_current_source.
 
 (** Every checkpoint the chain ever published for signing — at build time or when a gas estimate
@@ -425,3 +426,29 @@ Theorem whoever_sent_evidence_is_not_jailed_by_prune :
   In v (map ev_val subs) -> ~ In v (prune_calls keqb gk ord sn (msg_of_submissions public error subs)).
 Proof. exact (fun K keqb gk ord => submitter_not_called keqb gk ord). Qed.
 Print Assumptions whoever_sent_evidence_is_not_jailed_by_prune.
+
+(** The whole life of a message: error report, delivery report (in any order, each honoured or
+    ignored as Queue.SetErrorData / SetPublicAccessData do) and evidence at ANY time
+    ([msg_of_history]).  Only AddEvidence writes the evidence list (T enumerates the writers), so the
+    list only grows or replaces a proof per validator: it is the stored form of the submissions
+    alone, and whoever is in it stays in it whatever happens later. *)
+Theorem message_evidence_list_only_grows_or_replaces :
+  forall (ops later : list mop) (v : val),
+  pm_evs (msg_of_history ops) = stored_evidence (submissions ops) /\
+  (In v (voters (msg_of_history ops)) -> In v (voters (msg_of_history (ops ++ later)))).
+Proof. exact (fun ops later v => conj (history_evidence_is_stored_submissions ops) (evidence_never_lost ops later v)). Qed.
+Print Assumptions message_evidence_list_only_grows_or_replaces.
+
+(** Whoever supplied evidence for the message at any time -- before or after an error report,
+    before or after a delivery report -- is never handed to Jail when it is pruned; and the floor
+    counts the distinct attesters of the whole history. *)
+Theorem whoever_sent_evidence_at_any_time_is_not_jailed_by_prune :
+  forall (K : Type) (keqb : K -> K -> bool) (gk : Z -> Z -> K) (ord : list (@group K) -> list (@group K))
+         (sn : snapshot) (ops : list mop) (v : val),
+  (In v (map ev_val (submissions ops)) -> ~ In v (prune_calls keqb gk ord sn (msg_of_history ops))) /\
+  (10 * attested_power sn (submissions ops) < sn_total sn -> prune_calls keqb gk ord sn (msg_of_history ops) = []).
+Proof.
+  exact (fun K keqb gk ord sn ops v =>
+    conj (supplier_at_any_time_not_called keqb gk ord sn ops v) (history_floor keqb gk ord sn ops)).
+Qed.
+Print Assumptions whoever_sent_evidence_at_any_time_is_not_jailed_by_prune.
